@@ -1055,14 +1055,25 @@ class _ProtocolGraphWalker:
         Args:
           wants: List of wanted object SHAs
         """
+        depth = None
         while True:
-            command, val = self.read_proto_line((COMMAND_DEEPEN, COMMAND_SHALLOW))
+            command, val = self.read_proto_line(
+                (COMMAND_DEEPEN, COMMAND_SHALLOW, None)
+            )
+            if command is None:
+                # flush-pkt: an already shallow client fetching without
+                # moving its boundary only declares where its history ends
+                break
             if command == COMMAND_DEEPEN:
                 assert isinstance(val, int)
                 depth = val
                 break
             assert isinstance(val, bytes)
             self.client_shallow.add(ObjectID(val))
+        if depth is None:
+            # Nothing below these commits can be assumed to be on the client
+            self.shallow.update(self.client_shallow)
+            return
         self.read_proto_line((None,))  # consume client's flush-pkt
 
         shallow, not_shallow = find_shallow(self.store, wants, depth)
